@@ -180,6 +180,10 @@ func runCase(c Case) *pt.Failure {
 			return nil
 		}
 		ref := refwire.EncodeBody(v)
+		// another message is encoded and decoded before the first result is looked at: the bytes handed
+		// out earlier must still be the first message's (the codec manager is a process-wide singleton)
+		_ = cm.Encode(codec.CodecTypeSeata, message.GlobalRollbackRequest{AbstractGlobalEndRequest: message.AbstractGlobalEndRequest{Xid: "interleaved:8091:77", ExtraData: []byte("between two uses")}})
+		_ = cm.Decode(codec.CodecTypeSeata, refwire.EncodeBody(message.BranchReportResponse{}))
 		if !bytes.Equal(repo, ref) {
 			return pt.Failf("C12/"+name+"/layout", "encoded bytes differ from the v1 layout: %s", diffAt(repo, ref))
 		}
